@@ -24,11 +24,20 @@ type OblResult struct {
 func buildScript(fr *FuncResult, o *Obligation) string {
 	var b strings.Builder
 	b.WriteString("(set-option :produce-models true)\n")
-	for _, d := range fr.Decls {
+	// only what existed when the obligation was generated: later declarations and
+	// definitional axioms talk about symbols the obligation cannot mention
+	nd, na := o.NDecl, o.NAxiom
+	if nd > len(fr.Decls) {
+		nd = len(fr.Decls)
+	}
+	if na > len(fr.Axioms) {
+		na = len(fr.Axioms)
+	}
+	for _, d := range fr.Decls[:nd] {
 		b.WriteString(d)
 		b.WriteByte('\n')
 	}
-	for _, a := range fr.Axioms {
+	for _, a := range fr.Axioms[:na] {
 		b.WriteString(a)
 		b.WriteByte('\n')
 	}
@@ -146,6 +155,11 @@ func cmdVerify(args []string) int {
 		fmt.Printf("MISSING contract target %s\n", m)
 	}
 	frs := generateAll(g, cs)
+	for _, lr := range lemmaResults(g, *prop) {
+		if *fnf == "" || strings.Contains(lr.Key, *fnf) {
+			frs = append(frs, lr)
+		}
+	}
 	bad := len(missing)
 	for _, fr := range frs {
 		if fr.Err != nil {
